@@ -81,6 +81,7 @@ class Ctx:
         self._bins = {}
         self._falco = None
         self.quiet = False
+        self.deferred_faults = []
 
     # ---------------------------------------------------------------- build
     def _harness_modfile(self):
@@ -310,6 +311,11 @@ class Ctx:
             n += 1
         return n
 
+    def defer_fault(self, msg):
+        """a machinery problem (e.g. an accepted canary) that must not hide real mismatches found in the same run:
+        finish() exits 1 if there are unexplained violations, and only otherwise turns this into exit 2"""
+        self.deferred_faults.append(msg)
+
     # --------------------------------------------------------------- finish
     def check_repo_clean(self):
         if repo_status() != self.repo_status0:
@@ -370,6 +376,12 @@ class Ctx:
         print("%s %s seed=%d: cases=%d distinct=%d states=%d traces=%d failing=%d unexplained=%d wall=%.1fs" % (
             self.pid, self.tier, self.seed, self.results_n, len(self.nontrivial), self.states,
             self.traces_validated, len(self.failing), len(violations), wall))
+        if self.deferred_faults:
+            for m in self.deferred_faults:
+                print("MACHINERY-WARNING property=%s: %s" % (self.pid, m))
+            if not violations:
+                self.cleanup()
+                raise MachineryFault("; ".join(self.deferred_faults))
         self.cleanup()
         return 1 if violations else 0
 
